@@ -6,6 +6,7 @@ as an implication whose premises the SMT solver must discharge.  This file is re
 import Mathlib.Data.List.Perm.Basic
 import Mathlib.Data.List.Nodup
 import Mathlib.Data.List.Dedup
+import Mathlib.Algebra.BigOperators.Intervals
 
 /-- L1 (pigeonhole, both directions): two duplicate-free lists with the same members have the same length. -/
 theorem nodup_same_members_same_length {α : Type} (l₁ l₂ : List α)
@@ -16,3 +17,9 @@ theorem nodup_same_members_same_length {α : Type} (l₁ l₂ : List α)
 theorem nodup_subset_length_le {α : Type} [DecidableEq α] (l₁ l₂ : List α)
     (h₁ : l₁.Nodup) (h : ∀ a, a ∈ l₁ → a ∈ l₂) : l₁.length ≤ l₂.length :=
   (List.subperm_of_subset h₁ h).length_le
+
+/-- L3 (sum congruence): sums of two integer sequences that agree on the first `n` positions are equal.
+    (`seqsum a n` of the engine is `∑ k in range n, a k`: `Finset.sum_range_zero`, `Finset.sum_range_succ` are its two defining axioms.) -/
+theorem seqsum_congr (f g : ℕ → ℤ) (n : ℕ) (h : ∀ k, k < n → f k = g k) :
+    (Finset.range n).sum f = (Finset.range n).sum g :=
+  Finset.sum_congr rfl (fun k hk => h k (Finset.mem_range.mp hk))
